@@ -434,11 +434,15 @@ def check_rebuild(ctx, inst, inst_rec):
         node_ctor = c is not None and t[0] == 'call' and codec.ctor_variants(F, t) == {'Node'} and len(t[2]) == 2
         if node_ctor:
             s_ok = rec_of(t[2][0]) == 'Node.subject'
-            col = m_call(t[2][1], name='collect', trait='Iterator')
-            mp = m_call(col[0], name='map', trait='Iterator') if col else None
+            # the assertion vector in sequence normal form: exactly rec(a, same context) for each a of the node's assertions
+            # (map+collect, a push loop, extend, .. are the same sequence)
             a_ok = False
-            if mp is not None and mp[1][0] == 'closure' and child_kind(elem_source(mp[0])) == 'Node.assertions':
-                a_ok = rec_closure(mp[1])
+            parts = seq_norm(t[2][1], b, bi)
+            if parts is not None and len(parts) == 1 and parts[0][0] == 'each':
+                ra = rec_call(parts[0][1], h)
+                if ra is not None and ra[0][0] == 'elem' and child_kind(ra[0][1]) == 'Node.assertions' and ra[0][1][0] != 'elem' \
+                        and tuple(strip_sites(x) for x in ra[1:]) == ctx_args:
+                    a_ok = True
             if s_ok and a_ok:
                 ctx.ok(inst, site, 'node rebuilt as node(rec(subject), map(rec, assertions)) through the node constructor', sample=fmt(t))
                 kinds_seen['Node.subject'] = kinds_seen.get('Node.subject', 0) + 1
